@@ -28,8 +28,10 @@ FLOORS = {"nontrivial": 0.3, "no-tie-everywhere": 0.15, "bnode-renamed": 0.1}
 @st.composite
 def cases(draw, tier):
     odd = draw(st.integers(0, 3)) == 0     # classes that are themselves typed / used as values; literals spelling a node's IRI
+    ign = draw(st.integers(0, 5)) == 0     # a namespace filter: decided per triple, whatever was seen before
     g = draw(gg.general(max_stmts=25, inst_props=(RDF_TYPE, RDF_TYPE, RDF_TYPE, "http://ex.org/isA"), class_typing=odd,
-                        iri_like_literals=odd, quirks=draw(gg.quirk_set(one_in=4)) + (["same_local_classes"] if draw(st.integers(0, 9)) == 0 else [])))
+                        iri_like_literals=odd, quirks=draw(gg.quirk_set(one_in=4)) + (["same_local_classes"] if draw(st.integers(0, 9)) == 0 else [])
+                        + (["hash_props"] if ign else [])))
     cfg = draw(gg.switches())
     cfg["instances_report_mode"] = "mixed"
     if draw(st.integers(0, 5)) == 0:
@@ -38,6 +40,10 @@ def cases(draw, tier):
         cfg["inverse_paths"] = draw(st.sampled_from([True, True, True, False]))
     if draw(st.integers(0, 3)) == 0:
         cfg["detect_minimal_iri"] = True
+    if ign:
+        # namespaces that share everything up to their last '/' with a namespace that is NOT ignored (http://ex.org/voc# vs http://ex.org/)
+        cfg["namespaces_to_ignore"] = draw(st.lists(st.sampled_from(["http://ex.org/voc#", "http://ex.org/ns/voc#", "http://ex.org/", "http://ex.org/ns/",
+                                                                     "http://other.org/v#"]), min_size=1, max_size=2, unique=True))
     target = draw(common.target_spec(g))
     thr = draw(st.sampled_from([0, 0, 0, 0.5, 1 / 3, 2 / 3, 1]))
     n = len(g["triples"])
@@ -104,7 +110,19 @@ def compare_docs(a, b, M, label_of, thr, kls, texts, dec=False):
     viol, kn = [], []
     lab2S = {v: k for k, v in label_of.items()}
     if set(a) != set(b):
-        viol.append("shape sets differ: %s vs %s" % (sorted(a), sorted(b)))
+        # C02-GONEREF under a tie, cascading: a shape that is in one document only is excused when EVERY key it has there is
+        # non-literal, tied, and has the GONEREF signature with respect to the document that lacks the shape (in that run the
+        # first-seen winner of each tie was a reference to a removed shape, the shape lost all its constraints and was removed too)
+        def excused(lab, have, lack):
+            S_ = lab2S.get(lab)
+            cs = have[lab]
+            return (S_ is not None and not isinstance(cs, list) and cs.cons and
+                    all(k_[1] == ("nonliteral",) and M.has_tie(S_, k_[0], thr, kls) and oracle._goneref_sig(M, S_, k_[0], thr, lack, label_of, kls)
+                        for k_ in cs.cons))
+        if all(excused(lab, a, b) for lab in set(a) - set(b)) and all(excused(lab, b, a) for lab in set(b) - set(a)):
+            kn.append(("C02-GONEREF", "shapes %s in one run only (ties between references, the winner of one run points to a removed shape)" % sorted(set(a) ^ set(b))))
+        else:
+            viol.append("shape sets differ: %s vs %s" % (sorted(a), sorted(b)))
         return viol, kn
     for lab in a:
         ca, cb = a[lab], b[lab]
@@ -151,6 +169,37 @@ def compare_docs(a, b, M, label_of, thr, kls, texts, dec=False):
     return viol, kn
 
 
+def _dup_label_goneref(case, triples, out1, out2, sigs):
+    """the GONEREF-under-a-tie cascade (see compare_docs) for documents in which two shapes share one label: every shape signature
+    (label, instances, predicates) that only one run prints belongs to a class whose every key is non-literal, tied and has the
+    GONEREF signature with respect to the labels the other run prints"""
+    cfg = case["cfg"]
+    kls = cfg.get("keep_less_specific", True)
+    M, sel, label_of = common.model_for(case, triples)
+    s1, s2 = sigs(out1), sigs(out2)
+
+    def explained(sig, other):
+        lab, n, preds = sig
+        present = {x[0] for x in other}
+        for S_ in sel:
+            if label_of.get(S_) != lab or M.N[S_] != n or not preds:
+                continue
+            ok_ = True
+            for pr_ in preds:
+                dp = ("i", pr_[1:]) if pr_.startswith("^") else ("d", pr_)
+                pl = M.plus[S_].get(dp, {})
+                if any(k_[0] in ("dt", "class") for k_ in pl) or not M.has_tie(S_, dp, case["thr"], kls) \
+                        or not oracle._goneref_sig(M, S_, dp, case["thr"], present, label_of, kls):
+                    ok_ = False
+                    break
+            if ok_:
+                return True
+        return False
+    only1 = [x for x in s1 if x not in s2]
+    only2 = [x for x in s2 if x not in s1]
+    return all(explained(x, s2) for x in only1) and all(explained(x, s1) for x in only2)
+
+
 def check(case):
     kw, triples = common.base_kwargs(case)
     cfg = case["cfg"]
@@ -179,6 +228,8 @@ def check(case):
         def sigs(text):
             return sorted((sh.label, sh.n_instances, tuple(sorted(("^" if c.inverse else "") + c.pred for c in sh.constraints)))
                           for sh in oracle.shexc.read(text).shapes)
+        if sigs(out1) != sigs(out2) and _dup_label_goneref(case, triples, out1, out2, sigs):
+            return known("C02-GONEREF", "two classes share a local name; shapes in one run only, every key of them tied and pointing to a removed shape", {"shared-local-name"}, True)
         if sigs(out1) != sigs(out2):
             return violation("two classes share a local name; the multiset of shapes differs between the original and the transformed document:\n %s\n %s\n--- original ---\n%s\n--- transformed ---\n%s" % (
                 sigs(out1), sigs(out2), out1, out2), {"shared-local-name"}, True)
